@@ -155,10 +155,12 @@ Definition model_evicts (env : venv) (s : sstate) (d : desig) : bool :=
   | None => false
   end.
 
+(** (the node-level replay [cycle_agrees] of Run/Cycle.v is the correspondence of
+    C01-C03 and is not repeated here; [run_flags] still reports cycles exposed to
+    the device-count quirk C14-device-guard) *)
 Definition cyc_agrees (y : cyc) : bool :=
   let env := venv_of (y_env y) in
-  cycle_agrees (y_cc y)
-  && forallb (seg_model_ok env) (cyc_segments y)
+  forallb (seg_model_ok env) (cyc_segments y)
   && match y_des y with
      | Some d => Bool.eqb (model_evicts env (state_of (y_cc y) (y_env y)) d) (real_evicts (y_cc y) d)
      | None => true
